@@ -91,9 +91,10 @@ mod verif_proofs {
     }
 
     macro_rules! shape {
-        ($name:ident, $s:expr, $o:expr, $axes:expr) => {
+        ($name:ident, $s:expr, $o:expr, $axes:expr) => { shape!($name, $s, $o, $axes, 4); };
+        ($name:ident, $s:expr, $o:expr, $axes:expr, $unwind:expr) => {
             #[cfg_attr(kani, kani::proof)]
-            #[cfg_attr(kani, kani::unwind(4))]
+            #[cfg_attr(kani, kani::unwind($unwind))]
             #[cfg_attr(kani, kani::stub(<Tag as VkPartialOrd>::partial_cmp, tag_pcmp_stub))]
             #[cfg_attr(kani, kani::stub(<Tag as VkOrd>::cmp, tag_cmp_stub))]
             #[cfg_attr(kani, kani::stub(<Tag as VkPartialEq<Tag>>::eq, tag_eq_stub))]
@@ -106,14 +107,14 @@ mod verif_proofs {
     shape!(c16_overlay_1ax_none_onto_w, 0, 1, 1);
     shape!(c16_overlay_1ax_none_onto_none, 0, 0, 1);
     // two axes: every shape in which at least one box constrains the second axis
-    shape!(c16_overlay_2ax_w_onto_wd, 1, 3, 2);
-    shape!(c16_overlay_2ax_wd_onto_w, 3, 1, 2);
-    shape!(c16_overlay_2ax_wd_onto_wd, 3, 3, 2);
-    shape!(c16_overlay_2ax_w_onto_d, 1, 2, 2);
-    shape!(c16_overlay_2ax_d_onto_wd, 2, 3, 2);
-    shape!(c16_overlay_2ax_wd_onto_d, 3, 2, 2);
-    shape!(c16_overlay_2ax_wd_onto_none, 3, 0, 2);
-    shape!(c16_overlay_2ax_none_onto_wd, 0, 3, 2);
+    shape!(c16_overlay_2ax_w_onto_wd, 1, 3, 2, 4);
+    shape!(c16_overlay_2ax_wd_onto_w, 3, 1, 2, 4);
+    shape!(c16_overlay_2ax_wd_onto_wd, 3, 3, 2, 5);
+    shape!(c16_overlay_2ax_w_onto_d, 1, 2, 2, 4);
+    shape!(c16_overlay_2ax_d_onto_wd, 2, 3, 2, 4);
+    shape!(c16_overlay_2ax_wd_onto_d, 3, 2, 2, 4);
+    shape!(c16_overlay_2ax_wd_onto_none, 3, 0, 2, 4);
+    shape!(c16_overlay_2ax_none_onto_wd, 0, 3, 2, 4);
 
     /// insert clamps to [-1,1] and fills missing bounds; cleanup drops exactly the full-range axes; get defaults to the full range
     #[cfg_attr(kani, kani::proof)]
@@ -222,6 +223,54 @@ mod verif_proofs {
         assert!(r.0.len() <= 2 && rank_val(&r) == 1u128 << i, "VK_ASSERT new_is_one_shifted_left");
         vk_cover!(i >= 64, "second word used");
         std::mem::forget(r);
+    }
+
+    fn gn(s: &'static str) -> GlyphName { GlyphName::new(s) }
+
+    /// pre-pass 1: two rules on the same region are merged with the EARLIER rule taking precedence on a shared glyph;
+    /// rules on different regions are kept apart, in order
+    #[cfg_attr(kani, kani::proof)]
+    #[cfg_attr(kani, kani::unwind(6))]
+    #[cfg_attr(kani, kani::stub(<Tag as VkPartialOrd>::partial_cmp, tag_pcmp_stub))]
+    #[cfg_attr(kani, kani::stub(<Tag as VkOrd>::cmp, tag_cmp_stub))]
+    #[cfg_attr(kani, kani::stub(<Tag as VkPartialEq<Tag>>::eq, tag_eq_stub))]
+    pub(super) fn c16_merge_same_region_precedence() {
+        let (b0, b1) = (sbox(1), sbox(1));
+        let same = b0 == b1;
+        let s0: BTreeMap<GlyphName, GlyphName> = BTreeMap::from([(gn("a"), gn("x"))]);
+        let s1: BTreeMap<GlyphName, GlyphName> = BTreeMap::from([(gn("a"), gn("y"))]);
+        let out = merge_same_region_rules(vec![(Region(vec![b0]), s0.clone()), (Region(vec![b1]), s1.clone())]);
+        if same {
+            assert!(out.len() == 1, "VK_ASSERT equal_regions_are_merged");
+            assert!(out[0].1.get(&gn("a")) == Some(&gn("x")), "VK_ASSERT earlier_rule_takes_precedence_on_equal_regions");
+        } else {
+            assert!(out.len() == 2 && out[0].1 == s0 && out[1].1 == s1, "VK_ASSERT different_regions_stay_apart_in_rule_order");
+        }
+        vk_cover!(same, "equal regions");
+        vk_cover!(!same, "different regions");
+        std::mem::forget(out); std::mem::forget(s0); std::mem::forget(s1);
+    }
+
+    /// pre-pass 2: rules with identical substitutions are merged into one rule whose region is the union, first position kept
+    #[cfg_attr(kani, kani::proof)]
+    #[cfg_attr(kani, kani::unwind(6))]
+    #[cfg_attr(kani, kani::stub(<Tag as VkPartialOrd>::partial_cmp, tag_pcmp_stub))]
+    #[cfg_attr(kani, kani::stub(<Tag as VkOrd>::cmp, tag_cmp_stub))]
+    #[cfg_attr(kani, kani::stub(<Tag as VkPartialEq<Tag>>::eq, tag_eq_stub))]
+    pub(super) fn c16_merge_same_sub_rules() {
+        let (b0, b1) = (sbox(1), sbox(1));
+        let same_subs = vk::any_bool();
+        let s0: BTreeMap<GlyphName, GlyphName> = BTreeMap::from([(gn("a"), gn("x"))]);
+        let s1: BTreeMap<GlyphName, GlyphName> = if same_subs { s0.clone() } else { BTreeMap::from([(gn("b"), gn("y"))]) };
+        let out = merge_same_sub_rules(vec![(Region(vec![b0.clone()]), s0.clone()), (Region(vec![b1.clone()]), s1.clone())]);
+        if same_subs {
+            assert!(out.len() == 1 && out[0].1 == s0, "VK_ASSERT identical_substitutions_are_merged");
+            assert!(out[0].0.0.len() == 2 && out[0].0.0[0] == b0 && out[0].0.0[1] == b1, "VK_ASSERT merged_region_is_the_union_of_boxes");
+        } else {
+            assert!(out.len() == 2 && out[0].1 == s0 && out[1].1 == s1 && out[0].0.0[0] == b0 && out[1].0.0[0] == b1, "VK_ASSERT different_substitutions_stay_apart_in_rule_order");
+        }
+        vk_cover!(same_subs, "identical substitutions");
+        std::mem::forget(out); std::mem::forget(s0); std::mem::forget(s1);
     }
 
     /// The whole overlay on the smallest non-trivial instance: 2 rules, one box each on one axis, symbolic
